@@ -593,7 +593,10 @@ class SingleStage(Stage):
                     },
                 )[five_stage_control_unit_signals.wb_src]
 
-                state.program_counter += result_pr.instruction.length
+                # the program counter is a 32 bit register (a backward branch below 0 wraps)
+                state.program_counter = (
+                    state.program_counter + result_pr.instruction.length
+                ) % 2**32
                 if (
                     not type(result_pr.instruction)
                     in SingleStage.TYPE_NO_VISUALISATION_AVIVABLE
